@@ -108,7 +108,7 @@ PROPS = {
         'soak': {'quick': [('chain', 200000), ('dots', 200000), ('branches', 100000), ('ringlist', 200000), ('ringchain', 290)],
                  'thorough': [('chain', 1000000), ('dots', 1000000), ('branches', 500000), ('ringlist', 1000000), ('ringchain', 290), ('digits', 300000)]},
         'rule': 'depth: six size families with constant nesting (chain, dot list, branches on one atom, dot-separated rings, ring chain, ring digit '
-                'list) at 1..5000 (thorough 30000) atoms and two nested families up to depth 200: the activation counter of the hook is compared '
+                'list) at 1..5000 (thorough 12000) atoms and two nested families up to depth 200: the activation counter of the hook is compared '
                 'with the model depth on every string; read: the same comparison on the S-read strings; soak: read -> build -> walk -> write -> '
                 're-read of each family at 10^5..10^6 atoms in a child process, in the main thread and in a 2 MiB thread, exit status observed',
         'assumptions': ASSUME_COMMON + ['frame size per activation is a measured constant, not part of the theorem'],
@@ -129,7 +129,7 @@ PROPS = {
                 'disagreement): bounded-exhaustive and random strings incl. multi-byte and control characters, all small adjacency lists '
                 'incl. garbage (dangling, self, duplicate, asymmetric bonds), random well-formed and mutated graphs up to 300 atoms, ring-rich '
                 'graphs up to 120 open closures, conformant and malformed event histories, hydrogen queries at sums beyond 255, size families '
-                'up to 5000 (thorough 30000) atoms. distinct = distinct request lines',
+                'up to 5000 (thorough 12000) atoms. distinct = distinct request lines',
         'assumptions': ASSUME_COMMON + ['aborts (stack exhaustion) cannot be caught in-process: a dying implementation process is reported with the request it died on'],
     },
     'C08': {
